@@ -227,7 +227,28 @@ func (e *Engine) runC12(ch *kernel.Chooser, st *kernel.Stats) kernel.RunResult {
 	}
 	faults := EnumerateFaults(p)
 	res := kernel.RunResult{Fingerprint: kernel.Hash64(p.Text), Nontrivial: len(p.Toks) >= 4, Evals: int64(len(faults)), Steps: int64(len(faults))}
+	// the strict parser comes from a builder with a seeded history: fresh, or one that was used in
+	// tolerant mode / with smart semicolons before being switched (back) to strict
 	pb := xutil.PlainBuilder(xutil.Mode{})
+	switch ch.Weighted(3, 1, 1, 1) {
+	case 1:
+		pb = parser.NewBuilder(lexer.NewBuilder()).WithTolerantMode(true)
+		xutil.Parse(pb, p.Text)
+		pb.WithTolerantMode(false)
+		st.Inc("probe.strict_builder_was_tolerant_before")
+	case 2:
+		pb = parser.NewBuilder(lexer.NewBuilder()).WithSmartSemicolon(true)
+		xutil.Parse(pb, p.Text)
+		pb.WithSmartSemicolon(false)
+		st.Inc("probe.strict_builder_had_smart_semicolons_before")
+	case 3:
+		pb = parser.NewBuilder(lexer.NewBuilder()).WithTolerantMode(true).WithSmartSemicolon(true)
+		if len(faults) > 0 {
+			xutil.Parse(pb, faults[ch.Choose(len(faults))].Text)
+		}
+		pb.WithSmartSemicolon(false).WithTolerantMode(false)
+		st.Inc("probe.strict_builder_was_tolerant_before")
+	}
 	seen := map[string]bool{}
 	for _, f := range faults {
 		st.Inc("fault." + f.Kind)
@@ -673,6 +694,28 @@ func (e *Engine) checkC11(text string, m xutil.Mode, f *Fault, st *kernel.Stats,
 	if (o.Err != nil) != (len(o.Errors) > 0) {
 		add("err-iff", fmt.Sprintf("err-iff|err=%v|n=%d", o.Err != nil, min(len(o.Errors), 2)), fmt.Sprintf("mode %s: error value = %v but the error list has %d entries", m, o.Err, len(o.Errors)))
 	}
+	// the contract holds for every call: asking the same parser again must not panic, must return a program,
+	// and must keep "error value iff error list non-empty"
+	if o.Parser != nil {
+		var p2 *ast.Program
+		var err2 error
+		var pan2 any
+		func() {
+			defer func() { pan2 = recover() }()
+			p2, err2 = o.Parser.ParseProgram()
+		}()
+		st.Inc("c11.second_calls")
+		switch n2 := len(o.Parser.Errors()); {
+		case pan2 != nil:
+			if _, ok := pan2.(pullAbort); !ok {
+				add("panic", "second-call|panic", fmt.Sprintf("mode %s: a second ParseProgram call on the same parser panicked: %v", m, pan2))
+			}
+		case p2 == nil:
+			add("nil-program", "second-call|nil-program", fmt.Sprintf("mode %s: a second ParseProgram call on the same parser returned a nil program", m))
+		case (err2 != nil) != (n2 > 0):
+			add("err-iff", fmt.Sprintf("second-call|err-iff|err=%v", err2 != nil), fmt.Sprintf("mode %s: a second ParseProgram call on the same parser returned error value %v while the error list has %d entries", m, err2, n2))
+		}
+	}
 	var nilStmt, missing string
 	walkTree(reflect.ValueOf(o.Program), "", &nilStmt, &missing, 0)
 	if nilStmt != "" {
@@ -727,7 +770,68 @@ func (e *Engine) checkC11(text string, m xutil.Mode, f *Fault, st *kernel.Stats,
 	}()
 }
 
+// neighbours: "any input" is parsed in a process where other parser instances, with plugins, have lived
+// before. Fixed (no choices): a few builders with operators on built-in and dynamic token types and
+// pass-through interceptors parse and compile small programs. Their results are not judged here.
+func neighbours(st *kernel.Stats) {
+	defer func() { recover() }()
+	st.Inc("fault.plugin_bearing_neighbour_parsers_before_the_run")
+	mk := func(role string, word string) func(token.Token, ast.Expression, func() ast.Expression) ast.Expression {
+		return func(tok token.Token, left ast.Expression, right func() ast.Expression) ast.Expression {
+			var r ast.Expression
+			if right != nil {
+				r = right()
+			}
+			if left == nil {
+				return r
+			}
+			return &ast.BinaryExpression{Token: tok, Left: left, Operator: word, Right: r}
+		}
+	}
+	type cfg struct{ pre, in, post bool }
+	for i, c := range []cfg{{false, false, true}, {true, false, false}, {false, true, false}, {true, true, true}} {
+		lb := lexer.NewBuilder()
+		pb := parser.NewBuilder(lb)
+		tA, tB, tC := lb.RegisterTokenType("NA"), lb.RegisterTokenType("NB"), lb.RegisterTokenType("NC")
+		lb.UseTokenInterceptor(func(l *lexer.Lexer, next func() token.Token) token.Token {
+			t := next()
+			if t.Type == token.IDENT {
+				switch t.Literal {
+				case "NA":
+					t.Type = tA
+				case "NB":
+					t.Type = tB
+				case "NC":
+					t.Type = tC
+				}
+			}
+			return t
+		})
+		if c.post {
+			// the library's own factorial example: postfix ! on the built-in NOT token
+			pb.RegisterPostfixOperator(token.NOT, func(tok token.Token, left ast.Expression) ast.Expression { return mk("post", "!")(tok, left, nil) })
+			pb.RegisterPostfixOperator(tC, func(tok token.Token, left ast.Expression) ast.Expression { return mk("post", "NC")(tok, left, nil) })
+		}
+		if c.pre {
+			pb.RegisterPrefixOperator(tA, func(tok token.Token, right func() ast.Expression) ast.Expression { return right() })
+		}
+		if c.in {
+			pb.RegisterInfixOperator(tB, 4+i, mk("in", "NB"))
+			pb.RegisterInfixOperator(token.NOT, 6, mk("in", "!"))
+		}
+		pb.UseStatementInterceptor(func(p *parser.Parser, next func() ast.Statement) ast.Statement { return next() })
+		pb.UseExpressionInterceptor(func(p *parser.Parser, next func() ast.Expression) ast.Expression { return next() })
+		for _, src := range []string{"let a = 5! + NA b NB c NC; f(a)!", "x = NA y ! z NB 1; if (x) { y NC }", "let"} {
+			o := xutil.Parse(pb, src)
+			if o.Panic == nil && o.Program != nil && o.Err == nil {
+				xutil.Compile(xutil.CompilerConfig{}, o.Program)
+			}
+		}
+	}
+}
+
 func (e *Engine) runC11(ch *kernel.Chooser, st *kernel.Stats) kernel.RunResult {
+	neighbours(st)
 	var texts []Fault
 	var base string
 	res := kernel.RunResult{}
